@@ -139,6 +139,13 @@ func FromIPLD[T Tokener](node datamodel.Node) (T, error) {
 		return zero, err
 	}
 
+	// Integers that don't fit in an int64 (CBOR uint64 above MaxInt64) would be
+	// silently wrapped when bound to the int64 fields of the token payload
+	// (timestamps), making the decoded token differ from what was signed.
+	if err := checkIntFields(info.tokenPayloadNode); err != nil {
+		return zero, err
+	}
+
 	// Replaces the datamodel.Node in tokenPayloadNode with a
 	// schema.TypedNode so that we can cast it to a *token.Token after
 	// unwrapping it.
@@ -199,6 +206,27 @@ func FromIPLD[T Tokener](node datamodel.Node) (T, error) {
 	}
 
 	return tkn, nil
+}
+
+// checkIntFields verifies that the integer fields of the token payload fit in an int64.
+func checkIntFields(tokenPayloadNode datamodel.Node) error {
+	if tokenPayloadNode.Kind() != datamodel.Kind_Map {
+		return nil // rejected later, when matched with the schema
+	}
+	it := tokenPayloadNode.MapIterator()
+	for !it.Done() {
+		k, v, err := it.Next()
+		if err != nil {
+			return err
+		}
+		if v.Kind() == datamodel.Kind_Int {
+			if _, err := v.AsInt(); err != nil {
+				key, _ := k.AsString()
+				return fmt.Errorf("field %q: %w", key, err)
+			}
+		}
+	}
+	return nil
 }
 
 // Encode marshals a Tokener to the format specified by the provided
